@@ -161,6 +161,23 @@ Theorem C36_ldc_loaded_region :
 Proof. exact ldc_storage_tail_ok. Qed.
 Print Assumptions C36_ldc_loaded_region.
 
+(* LDC mode 2: [old $ssp, +$rC) is a copy of memory[$rA + $rB, +$rC) (refused if the two ranges share
+   a byte), followed by zero padding up to the word-padded length *)
+Theorem C36_ldc_memory :
+  forall (s : vm) (src_addr off c : N) (s' : vm),
+    Inv (v_mem s) -> c <> 0 -> ldc_memory s src_addr off c = inl s' ->
+    v_ssp s = v_sp s /\ v_ssp s + padded_len c <= MEM_SIZE /\
+    v_ssp s' = v_ssp s + padded_len c /\ v_sp s' = v_ssp s + padded_len c /\ v_hp s' = v_hp s /\
+    share_byte (v_ssp s) (saturating_add U64 src_addr off) c = false /\
+    exists m3,
+      R m3 {| stk_hi := N.max (sv_len (stack (v_mem s))) (v_ssp s + padded_len c); hp := mhp (v_mem s);
+              data := upd_range (copy_range (zero_range (mem_get (v_mem s)) (sv_len (stack (v_mem s))) (v_ssp s + padded_len c))
+                                            (v_ssp s) (saturating_add U64 src_addr off) c)
+                                (v_ssp s + c) (zeros (N.to_nat (padded_len c - c))) |} /\
+      update_code_size s m3 (padded_len c) false = inl (v_mem s').
+Proof. exact ldc_memory_ok. Qed.
+Print Assumptions C36_ldc_memory.
+
 (* the padding is zero when the loaded region reaches the end of the value ... *)
 Theorem C36_padding_zero_when_value_ends :
   forall (d : bytes) (off c l : N),
